@@ -85,6 +85,7 @@ PROPS = {
             "expect_probes": ["schedules-executed", "lock-acquisitions-that-blocked", "lock-upgrades"],
             "assumptions": ["lock acquisitions/releases are the complete set of scheduling points (std Arc and atomics are not)",
                             "the shuttle-backed RwLock models parking_lot's blocking rules (writer preference, one upgradable reader)",
+                            "a cleaning pass's reported peer total is part of its reply: it must equal the sum of the peers left in each torrent at the instant that torrent's share of the pass is linearized (the torrent total is taken at another instant and is not judged here)",
                             "a history whose linearizability search exceeds its budget is not reported"]},
     "C03": {"level": "exploration", "rule": _SYS_RULE + "; STORE runs as for C01/C07 with IPv4, IPv6, low (::/96) and IPv4-mapped sources",
             "expect_probes": ["announce-via-dual-stack-mapped-source", "spoofed-source", "ipv4-mapped-source", "low-ipv6-source"],
